@@ -268,6 +268,13 @@ def run_shard(module: Any, tier: str, seed: int, shard: int, nshards: int,
     violations: list[dict] = []
 
     all_subs = list(module.subs(tier))
+    if tier == "quick":
+        # the per-sub-check example counts in checks/*.py are the original single-digit-second budgets; the quick
+        # tier as registered runs 8 shards of 3 x that (six times the cases, still well under a minute per check)
+        scale = float(os.environ.get("VERIF_QUICK_SCALE", "3"))
+        for s_ in all_subs:
+            if s_.examples:
+                s_.examples = max(1, int(round(s_.examples * scale)))
     reg_dir = os.path.join(VERIF, "regressions", module.PROPERTY)
     if shard == 0 and os.path.isdir(reg_dir) and not only:
         by_name = {s_.name: s_ for s_ in all_subs}
@@ -521,7 +528,7 @@ def main_check(module: Any, argv: list[str]) -> int:
 
     # ---- coordinator -------------------------------------------------------
     nshards = args.nshards or getattr(module, "SHARDS", {}).get(
-        tier, 4 if tier == "quick" else 16)
+        tier, 8 if tier == "quick" else 16)
     work = os.path.join(VERIF, ".work", f"{prop}-{os.getpid()}")
     os.makedirs(work, exist_ok=True)
     procs = []
